@@ -3,6 +3,7 @@
 From Coq Require Import Bool List NArith ZArith Lia.
 From M Require ParamErr.
 From M Require ListWs.
+From M Require Tie.
 From M Require DecSpec.
 From M Require LexBounds.
 From M Require LexModel.
@@ -154,4 +155,12 @@ Theorem C05_all_data_list :
 Proof. exact (@ListWs.all_data_list). Qed.
 End T_all_data_list.
 Definition C05_all_data_list := @T_all_data_list.C05_all_data_list.
+
+Module T_tie_bool_names. Import Tie. Local Open Scope bool_scope. Local Open Scope Z_scope.
+Local Open Scope Z_scope.
+Theorem C05_tie_bool_names :
+  ParserModel.bool_def = Generated.gen_bool_def.
+Proof. exact (@Tie.tie_bool_names). Qed.
+End T_tie_bool_names.
+Definition C05_tie_bool_names := @T_tie_bool_names.C05_tie_bool_names.
 
